@@ -26,6 +26,7 @@ type Profile struct {
 	Scan        bool // C05 marker scan
 	KEKOutage   bool // C05
 	CondHeavy   bool // C09
+	FileClient  bool // C09: judge FileClient on a file generated from the model
 	Golden      bool // C03: sometimes start from a golden v1 file
 	MaxOps      int
 	MaxNames    int
@@ -127,7 +128,6 @@ func RunSeq(s *kernel.Sim, prof *Profile) *Env {
 			e.fail("golden", "golden file %s opened with different contents:\n got: %s\nwant: %s", golden, got, want)
 		}
 	}
-	kekAfterOpen := e.KEK.Count()
 	if outageRun {
 		e.KEK.Outage = true
 		s.Fault("kek-outage")
@@ -176,25 +176,29 @@ func RunSeq(s *kernel.Sim, prof *Profile) *Env {
 				e.KEK.Outage = false
 			}
 			e.restart()
-			kekAfterOpen = e.KEK.Count()
 			if outageRun {
 				e.KEK.Outage = true
 			}
 		}
 	}
-	if !s.Failed() && e.KEK.Count() != kekAfterOpen {
-		e.fail("kek", "the key-encryption key was consulted %d times outside Open/create", e.KEK.Count()-kekAfterOpen)
+	if !s.Failed() && prof.FileClient {
+		e.checkFileClient()
+	}
+	if !s.Failed() && e.KEK.Count() != e.KekBase {
+		e.fail("kek", "the key-encryption key was consulted %d times outside Open/create", e.KEK.Count()-e.KekBase)
 	}
 	return e
 }
 
 // restart drops the handle and reopens the same file with the same key.
-func (e *Env) restart() {
+func (e *Env) restart() { e.restartAs("restart", "") }
+
+func (e *Env) restartAs(kind, what string) {
 	before := e.ReadFile()
 	var stB syscall.Stat_t
 	syscall.Stat(e.Path, &stB)
 	if err := e.Open(); err != nil {
-		e.fail("restart", "reopen failed: %v", err)
+		e.fail(kind, "%s reopen failed: %v", what, err)
 		e.S.Fail(e.Prof.Prop+".harness", "reopen failed: "+err.Error())
 		return
 	}
@@ -208,11 +212,11 @@ func (e *Env) restart() {
 	}
 	got, err := e.Observe()
 	if err != nil {
-		e.fail("restart", "after restart: %v", err)
+		e.fail(kind, "%s after restart: %v", what, err)
 		return
 	}
 	if want := e.Model.DumpVisible(); got != want {
-		e.fail("restart", "state after restart differs from acknowledged state:\n got: %s\nwant: %s", got, want)
+		e.fail(kind, "%s state after restart differs from acknowledged state:\n got: %s\nwant: %s", what, got, want)
 	}
 	e.tracef("restart")
 }
@@ -288,6 +292,7 @@ func (e *Env) step(st *seqState, c *Caller, op model.Op, cor *Corruption, whoFau
 	}
 	mop := e.ModelOp(jop)
 	rules := c.Rules
+	super := c.Super && whoFault != WhoEmptyGrants
 
 	// ---- no non-200 reply carries secret bytes; 304 has an empty body ----
 	if hr != nil {
@@ -326,7 +331,9 @@ func (e *Env) step(st *seqState, c *Caller, op model.Op, cor *Corruption, whoFau
 		case "unspecified":
 			// may be accepted or refused; a refusal by the front door shows
 			// as a 4xx/5xx other than the store's own 403/404
-			if hr.Status >= 400 && hr.Status != 403 && hr.Status != 404 {
+			// (a store-side failure also yields 4xx/5xx, but only after the
+			// audit record of the permission decision was written)
+			if hr.Status >= 400 && hr.Status != 403 && hr.Status != 404 && len(recs) == 0 {
 				rejected = true
 			}
 		}
@@ -347,7 +354,7 @@ func (e *Env) step(st *seqState, c *Caller, op model.Op, cor *Corruption, whoFau
 		}
 	}
 
-	allowed := c.Super || mop.Kind == model.OpList || model.Allows(rules, mop.Kind.Action(), mop.Name)
+	allowed := super || mop.Kind == model.OpList || model.Allows(rules, mop.Kind.Action(), mop.Name)
 	illFormed := (mop.Name == "" && (mop.Kind == model.OpPut || mop.Kind == model.OpActivate)) ||
 		(mop.Version == 0 && (mop.Kind == model.OpActivate || mop.Kind == model.OpDeleteVersion))
 
@@ -380,9 +387,18 @@ func (e *Env) step(st *seqState, c *Caller, op model.Op, cor *Corruption, whoFau
 		if !unchanged {
 			e.fail("audit-failclosed", "%s: audit record could not be written but the database file changed", desc)
 		}
-		if got, err := e.Observe(); err != nil || got != e.Model.DumpVisible() {
-			e.fail("audit-failclosed", "%s: audit record could not be written but state changed (%v)", desc, err)
+		// An audit writer may stay broken after a failed write (the JSON
+		// encoder's error is sticky), in which case every later call fails
+		// closed, the observer's included. Look at the running handle if it
+		// still answers, then restart with a fresh audit writer and compare
+		// the persisted state.
+		if got, err := e.Observe(); err == nil && got != e.Model.DumpVisible() {
+			e.fail("audit-failclosed", "%s: audit record could not be written but the served state changed:\n got: %s\nwant: %s", desc, got, e.Model.DumpVisible())
 		}
+		out := e.KEK.Outage
+		e.KEK.Outage = false
+		e.restartAs("audit-failclosed", desc+": after the failed audit write")
+		e.KEK.Outage = out
 		return
 	}
 
@@ -422,9 +438,9 @@ func (e *Env) step(st *seqState, c *Caller, op model.Op, cor *Corruption, whoFau
 	// ---- allowed: exactly the model's answer ----
 	exp := e.Model.Peek(mop)
 	if mop.Kind == model.OpList {
-		exp.OK.List = e.listFor(&Caller{Super: c.Super, Rules: rules})
+		exp.OK.List = e.listFor(&Caller{Super: super, Rules: rules})
 	}
-	if res.Class == model.AccessDenied && !c.Super && !exp.Classes.Has(model.AccessDenied) {
+	if res.Class == model.AccessDenied && !super && !exp.Classes.Has(model.AccessDenied) {
 		// spurious denial of a granted call: not a safety violation of C01
 		// by itself; list exactness is where the statement demands it.
 		e.S.Probe("spurious-denial")
